@@ -216,9 +216,21 @@ def global_rules(sm, rep, tier):
     problems = {}         # threshold id -> [descriptions]
     unsupported = []
 
+    def _walk_values(n):
+        # sub-expressions that can *be* the threshold: the test of a conditional expression only selects, it is no magnitude
+        yield n
+        for fld, val in ast.iter_fields(n):
+            if isinstance(n, ast.IfExp) and fld == 'test':
+                continue
+            for c_ in (val if isinstance(val, list) else [val]):
+                if isinstance(c_, ast.AST):
+                    yield from _walk_values(c_)
+
     def thr_ids(n):
         ids = []
-        for x in ast.walk(n):
+        for x in _walk_values(n):
+            if isinstance(x, ast.Name) and x.id in defaults and isinstance(defaults[x.id], ast.Constant) and isinstance(defaults[x.id].value, bool):
+                continue          # a boolean option, not a magnitude
             if isinstance(x, ast.Name) and x.id != param and x.id in defaults and isinstance(defaults[x.id], ast.Constant):
                 ids.append(f"{x.id}={defaults[x.id].value!r}")
             elif isinstance(x, ast.Name) and x.id != param and x.id not in ('np', 'numpy'):
